@@ -482,12 +482,9 @@ func (r *Remote) fetch(ctx context.Context, o *FetchOptions) (sto storer.Referen
 		return nil, err
 	}
 
-	var shallows []plumbing.Hash
-	if o.Depth != 0 {
-		shallows, err = r.s.Shallow()
-		if err != nil {
-			return nil, err
-		}
+	shallows, err := r.s.Shallow()
+	if err != nil {
+		return nil, err
 	}
 
 	isWildcard := true
